@@ -80,4 +80,8 @@ def prove_builtin(timeout_ms=10000):
     prove('PW.mono.base', [unit, m >= 0, n == m], PW(x, n) <= PW(x, m))
     prove('PW.mono.step', [unit, m >= 0, n >= m, PW(x, n) <= PW(x, m), PW(x, n + 1) <= PW(x, n)], PW(x, n + 1) <= PW(x, m))
     prove('PW.one', [], PW(x, 1) == x)
+    # the instantiated facts used for abstract multiplication are theorems of real arithmetic
+    y = z3.Real('y')
+    for k, f in enumerate(Z.mul_facts(x, y, x * y)):
+        prove('MUL.fact%d' % k, [], f)
     return out
